@@ -2,6 +2,7 @@
 #include "../engine/ctx.hh"
 #include "../engine/gen_ta.hh"
 #include <vata/explicit_lts.hh>
+#include <memory>
 
 const char* const harness::ID = "C16";
 
@@ -12,11 +13,15 @@ void harness::run_case(const eng::Raw& raw, eng::Ctx& ctx)
 	// 1/24 of the cases are LARGE (65..220 states, chain/tree shaped with a few generated extra edges): internal tables
 	// of the engine are sized in words of 64 and relation rows in powers of two from 16
 	const bool large = (h[7] % 24 == 23);
-	const size_t n = large ? 65 + h[0] % 156 : 1 + h[0] % maxN;
+	size_t n = large ? 65 + h[0] % 156 : 1 + h[0] % maxN;
 	const size_t nl = 1 + h[1] % 4;
 	const bool withPartition = (h[2] % 3) != 0;
-	const size_t outSize = (h[3] % 3 == 0) ? 1 + (h[3] / 3) % n : n;
 	const bool allowDuplicateEdges = (h[6] % 8 == 0);
+	// how the ExplicitLTS object that is asked comes into being (it is a value, and init() refreshes its index):
+	// 0 built in one go; 1 a copy of an initialised object whose original is gone; 2 a copy taken before init();
+	// 3 built in two phases around a first init() (later edges only use labels the first phase knew);
+	// 4 as 3, but the object starts with 0 states and grows with the edges (so the state count is the largest index + 1)
+	const unsigned protocol = (h[6] / 8) % 8 < 5 ? (h[6] / 8) % 8 : 0;
 
 	// edges
 	std::vector<std::array<size_t,3>> edges;
@@ -34,6 +39,20 @@ void harness::run_case(const eng::Raw& raw, eng::Ctx& ctx)
 		if (r[0] % 4 == 3) continue;      // records reserved for the partition / preorder
 		std::array<size_t,3> e{(r[1] + (large ? r[4] * 7 : 0)) % n, r[2] % nl, (r[3] + (large ? r[5] * 11 : 0)) % n};
 		if (edgeSet.insert(e).second || allowDuplicateEdges) edges.push_back(e);
+	}
+	if (protocol == 4 && !edges.empty()) {
+		size_t top = 0;
+		for (auto& e : edges) top = std::max(top, std::max(e[0], e[2]));
+		n = top + 1;
+	}
+	const size_t outSize = (h[3] % 3 == 0) ? 1 + (h[3] / 3) % n : n;
+	// two-phase construction: the first edge carries the largest label, the split point is generated
+	size_t phase1 = edges.size();
+	if ((protocol == 3 || protocol == 4) && !edges.empty()) {
+		size_t best = 0;
+		for (size_t i = 0; i < edges.size(); ++i) if (edges[i][1] > edges[best][1]) best = i;
+		std::swap(edges[0], edges[best]);
+		phase1 = 1 + (h[5] / 16) % edges.size();
 	}
 	// partition into non-empty blocks + preorder on blocks (reflexive transitive closure of generated pairs)
 	std::vector<size_t> blockOf(n, 0);
@@ -56,7 +75,10 @@ void harness::run_case(const eng::Raw& raw, eng::Ctx& ctx)
 	}
 	{
 		std::ostringstream d;
-		d << "states " << n << " labels " << nl << " output-size " << outSize << (allowDuplicateEdges ? " (duplicate edges kept)" : "") << "\nedges:";
+		static const char* const protoName[] = {"built in one go", "copy of an initialised object, original destroyed", "copy taken before init()",
+			"two phases around a first init()", "two phases, object grows from 0 states"};
+		d << "states " << n << " labels " << nl << " output-size " << outSize << (allowDuplicateEdges ? " (duplicate edges kept)" : "") <<
+			"\nobject: " << protoName[protocol] << ((protocol == 3 || protocol == 4) ? " (first " + std::to_string(phase1) + " edges before it)" : std::string()) << "\nedges:";
 		size_t shown = 0;
 		for (auto& e : edges) { if (++shown > 60) { d << " ... (" << edges.size() << " edges)"; break; } d << " " << e[0] << "-" << e[1] << "->" << e[2]; }
 		d << "\n";
@@ -95,6 +117,8 @@ void harness::run_case(const eng::Raw& raw, eng::Ctx& ctx)
 	for (size_t q = 0; q < n; ++q) for (size_t r = 0; r < n; ++r) if (sim[q][r]) ++cnt;
 	ctx.nontrivial(cnt > n && cnt < n * n && refined);
 	if (large) ctx.tag("large:65-220-states");
+	if (protocol == 1 || protocol == 2) ctx.tag("object:copy");
+	if (protocol == 3 || protocol == 4) ctx.tag("object:two-phase");
 	if (withPartition) ctx.tag("with-partition");
 	if (outSize < n) ctx.tag("restricted-output");
 	if (refined) ctx.tag("needed-refinement");
@@ -102,9 +126,18 @@ void harness::run_case(const eng::Raw& raw, eng::Ctx& ctx)
 	VATA::Util::BinaryRelation result;
 	{
 		eng::LibSection ls(ctx, "lts:computeSimulation");
-		VATA::ExplicitLTS lts(n);
-		for (auto& e : edges) lts.addTransition(e[0], e[1], e[2]);
-		lts.init();
+		std::unique_ptr<VATA::ExplicitLTS> obj(new VATA::ExplicitLTS((protocol == 4 && !edges.empty()) ? 0 : n));
+		for (size_t i = 0; i < phase1; ++i) obj->addTransition(edges[i][0], edges[i][1], edges[i][2]);
+		if (protocol == 2) { std::unique_ptr<VATA::ExplicitLTS> cp(new VATA::ExplicitLTS(*obj)); obj = std::move(cp); }
+		obj->init();
+		if (protocol == 3 || protocol == 4) {
+			if (h[5] % 2) (void)obj->computeSimulation();      // the object has been used before it is extended
+			for (size_t i = phase1; i < edges.size(); ++i) obj->addTransition(edges[i][0], edges[i][1], edges[i][2]);
+			obj->init();
+		}
+		if (protocol == 1) { std::unique_ptr<VATA::ExplicitLTS> cp(new VATA::ExplicitLTS(*obj)); obj = std::move(cp); }
+		VATA::ExplicitLTS& lts = *obj;
+		if (lts.states() != n) { ctx.fail("lts:states", "the object reports " + std::to_string(lts.states()) + " states, built for " + std::to_string(n)); return; }
 		if (!withPartition) {
 			result = (outSize == n && h[7] % 2) ? lts.computeSimulation() : lts.computeSimulation(outSize);
 		} else {
